@@ -541,8 +541,13 @@ def r4_3(rep):
         rep.check("to_rust_ty_or_opaque" in recv and re.search(r"~ir::ty::TypeKind::(Pointer|Reference)\.0", recv) is not None, "pointer:pointee", "the pointee spelling is the inner type's (infallible) Rust type", tb.loc(c))
         # function pointee: no extra pointer level
         atoms = guard_atoms(tb, c)
-        rep.check(has_atom(atoms, "Type::is_function", False), "pointer:function-pointee-no-extra-level",
-                  "a pointer to a function is the function type itself (fn types are already pointers): to_ptr only under !is_function()", tb.loc(c))
+        # ... decided on the CANONICAL pointee: `typedef void fn_t(int); fn_t *p;` is a function pointer as well
+        canon_test = any((not pol) and "Type::is_function" in a and "canonical_type" in a for a, pol, _ in atoms)
+        rep.check(has_atom(atoms, "Type::is_function", False) and canon_test, "pointer:function-pointee-no-extra-level",
+                  "a pointer to a function is the function type itself (fn types are already pointers): to_ptr only under "
+                  "!canonical_type().is_function()" if canon_test else
+                  "`to_ptr` is not excluded for pointees whose CANONICAL type is a function: a pointer to a typedef of a function type gets an "
+                  "extra level of indirection (`*mut Option<fn>`)", tb.loc(c))
     fbody = rep.need(arm_of(tb, tm, "ir::ty::TypeKind::Function"), "TypeKind::Function arm")
     fv = val(tb, fbody)
     fl = leaves(fv)
